@@ -245,6 +245,35 @@ def blocked_interval_rule(ctx: Ctx, rid: str):
                    key=key_of_text(rid, fn.qual, f"{which} {a[0]}"))
     if n < 2:
         raise AnchorMissing(f"initScoreboard: {n} leave interval loops found (project-wide and own leaves expected)")
+    # a project-wide leave closes slots through the markers written here and nothing else (onShift() does not look at project-wide
+    # leaves), so a leave that ENDS inside a slot must close that slot too: its end bound is the ceiling slot -- the floor index plus
+    # one when the end lies inside the slot (`if idxToDate(end_idx) < end: end_idx += 1`) -- not the floor
+    for loop in own_nodes(fn):
+        if not (isinstance(loop, ast.For) and isinstance(loop.iter, ast.Call) and norm(loop.iter.func) == "range" and len(loop.iter.args) == 2):
+            continue
+        outer = getattr(loop, "_parent", None)
+        while outer is not None and not isinstance(outer, ast.For):
+            outer = getattr(outer, "_parent", None)
+        if outer is None:
+            continue
+        src = norm(outer.iter)
+        srcs = [src] + [norm(d.value) for d in own_nodes(fn) if isinstance(d, (ast.Assign, ast.AnnAssign)) and d.value is not None and isinstance(outer.iter, ast.Name)
+                        and any(isinstance(t, ast.Name) and t.id == outer.iter.id for t in (d.targets if isinstance(d, ast.Assign) else [d.target]))]
+        if not any("self.project.attributes" in x and "leaves" in x for x in srcs):
+            continue
+        end_names = {x.id for x in ast.walk(loop.iter.args[1]) if isinstance(x, ast.Name)}
+        ceil = [a for a in ast.walk(outer) if isinstance(a, ast.AugAssign) and isinstance(a.op, ast.Add) and isinstance(a.target, ast.Name)
+                and a.target.id in end_names and isinstance(a.value, ast.Constant) and a.value.value == 1
+                and any(isinstance(i, ast.If) and a in i.body and "idxToDate" in norm(i.test) and ".interval.end" in norm(i.test)
+                        for i in ast.walk(outer))]
+        direct = "Ceil" in norm(loop.iter.args[1]) or any("ceil" in norm(d.value).lower() for d in ast.walk(outer) if isinstance(d, ast.Assign)
+                                                            and any(isinstance(t, ast.Name) and t.id in end_names for t in d.targets))
+        ok = bool(ceil) or direct
+        ctx.ob(rid, f"{fn.qual}: project-wide leave, loop {norm(loop.iter)[:50]}: a leave ending inside a slot closes that slot", (fn, loop), ok,
+               "end bound = slot of the end, plus one when the end lies inside it" if ok else
+               "the end bound of a project-wide leave is the slot its end falls in, exclusive: `leaves holiday 09:00 - 12:30` leaves the 12:00 slot "
+               "open and it is booked as a whole although its first half is leave (witness findings/witness/global_leave_ends_mid_slot.tjp)",
+               key=key_of_text(rid, fn.qual, "project-wide leave end ceiling"))
     # every slot of the range that is still open (table entry None: on shift, nothing marked yet) receives the leave marker:
     # onShift() looks at a slot's first second only, so the marker written here is what closes the slot in which a leave BEGINS
     for loop in own_nodes(fn):
